@@ -736,3 +736,10 @@ void bhkRagdollTemplateData::GetStringRefs(std::vector<NiStringRef*>& refs) {
 
 	refs.emplace_back(&name);
 }
+
+void bhkRagdollTemplateData::GetPtrs(std::set<NiPtr*>& ptrs) {
+	NiObject::GetPtrs(ptrs);
+
+	for (auto& constraint : constraints)
+		constraint.GetPtrs(ptrs);
+}
